@@ -130,9 +130,17 @@ RECURSIVE RefEscFrom(_, _)
 RefEscFrom(s, i) == IF i > Len(s) THEN <<>>
                     ELSE (IF IsPunct(s[i]) THEN <<92, s[i]>> ELSE <<s[i]>>) \o RefEscFrom(s, i + 1)
 RefEscape(s) == RefEscFrom(s, 1)
-QDoc(s, angle) ==
+\* the sparing spelling: only the backslash itself and the bytes that would end or unbalance a destination
+\* ( ( ) < > ) are escaped, every other punctuation character is written as it is
+MinEscSet == {92, 40, 41, 60, 62}
+RECURSIVE RefEscMinFrom(_, _)
+RefEscMinFrom(s, i) == IF i > Len(s) THEN <<>>
+                       ELSE (IF s[i] \in MinEscSet THEN <<92, s[i]>> ELSE <<s[i]>>) \o RefEscMinFrom(s, i + 1)
+RefEscMin(s) == RefEscMinFrom(s, 1)
+\* both spellings denote s (checked by TLC for every generated s: MC_LinkDest, SpellingsDenote)
+QDoc(s, angle, sparing) ==
   LET pre == <<91, 97, 93, 40>> \o (IF angle THEN <<60>> ELSE <<>>)                 \* [a](  or  [a](<
-      d == <<112, 49, 47, 113, 63, 107>> \o RefEscape(s) \o <<118>> IN              \* p1/q?k ... v
+      d == <<112, 49, 47, 113, 63, 107>> \o (IF sparing THEN RefEscMin(s) ELSE RefEscape(s)) \o <<118>> IN   \* p1/q?k ... v
   [src |-> pre \o d \o (IF angle THEN <<62>> ELSE <<>>) \o <<41>>,
    spans |-> <<[s |-> Len(pre), e |-> Len(pre) + Len(d), c |-> "rel", b |-> 1]>>]
 
